@@ -186,7 +186,7 @@ GuardsRet2(e) ==
     IN
     {CG("no_panic", {"C09", "C13", "C15"}, ~e.panic)} \cup
     (IF c.op = "build" THEN {CG("build_ok", {"C08"}, err = {})}
-     ELSE IF c.op \in {"resolve", "create"} THEN
+     ELSE IF c.op \in {"resolve", "create", "group"} THEN
         {CG("refused_after_close", {"C13"}, c.mustRefuse => (err \cap DisposedClasses # {})),
          CG("only_documented_errors", {"C09", "C13"}, err # {} =>
                \/ (c.op = "resolve" /\ ~HasProvider(cs.cfg, c.t, c.k) /\ "notfound" \in err)   \* e.g. a removed output
